@@ -516,6 +516,26 @@ def generate():
         tx.fail(None, "a non-RTU framer re-keys the request's transaction id")
     D["g_rtu_tid_is_unit"] = rekey["ModbusRtuFramer"]
 
+    # ---- isError(): pdu.ModbusResponse (by function code) and exceptions.ModbusException (constant), not overridden
+    pd = Src("pymodbus/pdu.py")
+    f = pd.func("ModbusResponse", "isError")
+    b = [x for x in f.body if not core.is_docstring(x)]
+    if not (len(b) == 1 and isinstance(b[0], ast.Return)):
+        pd.fail(f, "ModbusResponse.isError: expected a single return")
+    D["g_is_error_rsp"] = ExprTr(pd, {"self.function_code"}).tr_bool(b[0].value)
+    for cls in ("ExceptionResponse", "ModbusPDU"):
+        if pd.has_func(cls, "isError"):
+            pd.fail(pd.cls(cls), "%s overrides isError" % cls)
+    ex = Src("pymodbus/exceptions.py")
+    f = ex.func("ModbusException", "isError")
+    b = [x for x in f.body if not core.is_docstring(x)]
+    if not (len(b) == 1 and isinstance(b[0], ast.Return) and isinstance(b[0].value, ast.Constant)
+            and isinstance(b[0].value.value, bool)):
+        ex.fail(f, "ModbusException.isError: expected `return True/False`")
+    D["g_is_error_exc"] = b[0].value.value
+    if ex.has_func("ModbusIOException", "isError"):
+        ex.fail(ex.cls("ModbusIOException"), "ModbusIOException overrides isError")
+
     def by_framing(vals):
         return "(fun fr => match fr with FTcp => %s | FRtu => %s | FAscii => %s | FBin => %s end)" % tuple(coq_z(v) for v in vals)
 
@@ -538,6 +558,8 @@ def generate():
         ("g_tcp_hsize", coq_z(D["g_tcp_hsize"])),
         ("g_caught", coq_list(D["g_caught"])),
         ("g_rtu_tid_is_unit", coq_bool(D["g_rtu_tid_is_unit"])),
+        ("g_is_error_rsp", D["g_is_error_rsp"]),
+        ("g_is_error_exc", coq_bool(D["g_is_error_exc"])),
     ]
     text += ";\n".join("  %s := %s" % kv for kv in fields) + "\n|}.\n"
     return {"GenClient.v": text}
